@@ -57,6 +57,9 @@ def raise_kind(kind, msg):
         class LocalErr(Exception):
             pass
         raise LocalErr(msg)
+    if kind == "LazyErr":
+        from vlib import lazyerrs     # imported only when the body runs
+        raise lazyerrs.LazyErr(msg)
     if kind == "NestedErr":
         raise Holder.NestedErr(msg)
     if kind == "DeepErr":
